@@ -142,6 +142,16 @@ def _sloftype(e):
     return e
 
 
+def _bumpr(e):
+    r = e.get('r')
+    if e.get('op') == 'bin' and e.get('outcome') == 'value' and isinstance(r, dict) and r.get('k') in ('int', 'frac') \
+            and e['a'].get('k') in ('int', 'frac') and e['b'].get('k') in ('int', 'frac') and e['a']['t'] == e['b']['t'] \
+            and e.get('name') in ('Add', 'Sub'):
+        r['n'] += 8
+        return e
+    return None
+
+
 PROPS = {
     'C11': dict(
         tv=dict(module='ScannerTrace', cfg='ScannerTrace.cfg'),
@@ -240,6 +250,12 @@ PROPS = {
         tv=dict(module='VariantHeapTrace', cfg='VariantHeapTrace.cfg'),
         mc=[dict(module='VariantHeapMC', cfg='VariantHeapMC.cfg')],
         corrupt=[('change the reported type of a slot', _sloftype)],
+        exhaustive_part=True,
+    ),
+    'C06': dict(
+        tv=dict(module='VariantOpsTrace', cfg='VariantOpsTrace.cfg'),
+        mc=[],
+        corrupt=[('result number + 1', _bumpr)],
         exhaustive_part=True,
     ),
 }
@@ -416,5 +432,18 @@ DOC = {
              'MaxInt64 cannot be held by the Long type and are not generated; SetByIndex/SetLength on non-arrays and GetByIndex out of range '
              'are documented precondition panics and not driven.',
         technique='TLA+ value model + TLC model checking (VariantHeapMC) + TLC trace validation of operation histories on real variants',
+    ),
+    'C06': dict(
+        level='VariantOps.tla is the value model: which (operator, first-operand type) cells are defined, which conversions of the second '
+              'operand each manager supports, Null propagation, the undefined cases that must be errors (integer division by zero, negative '
+              'shift, index out of range), and exact results on the domain TLC can compute (small integers, eighths, booleans, strings by '
+              'code point; bitwise operators by bit recursion). Both real managers are called on every ordered pair of a boundary pool '
+              '(about 68 values of all 11 types incl. extremes, NaN/Inf, empty string) for all 19 operators, plus comparison-consistency, '
+              'algebraic-law (add/sub, xor/xor, div/mod identity, double negation, commutativity - these reach the int64 extremes through '
+              'opaque payload strings), membership and indexing events; VariantOpsTrace.tla classifies every recorded outcome.',
+        note='Trusted: TLC, Json module, recorder (classification of a value as exactly modelled). Not computed by the model: results of '
+             'overflow and of inexact floating-point operations (laws only), shifts by >= the word size, which error code is used, how '
+             'Object/Array values are rendered when concatenated to a string, Pow with a non-numeric second operand.',
+        technique='TLA+ operator/conversion value model (VariantOps) + TLC trace validation of all operator x operand-pair cells on both managers',
     ),
 }
